@@ -40,12 +40,23 @@ func main() {
 		dump     = flag.String("dump", "", "debug: dump SEE of returns/calls of function pkg:name (e.g. internal/config:parseInterface)")
 		evidence = flag.String("evidence", "", "evidence directory (default <verif>/evidence)")
 		list     = flag.Bool("list", false, "list registered properties")
+		describe = flag.Bool("describe", false, "print the registered rule sets as JSON")
 		goos     = flag.String("goos", "", "debug: single GOOS")
 	)
 	flag.Parse()
 
 	if *list {
 		fmt.Println(strings.Join(rules.Properties(), " "))
+		return
+	}
+	if *describe {
+		out := map[string]any{}
+		for _, id := range rules.Properties() {
+			rs := rules.Registry[id]
+			out[id] = map[string]any{"explanation": rs.Explanation, "assumptions": rs.Assumptions, "not_covered": rs.NotCovered, "technique": rs.Technique}
+		}
+		b, _ := json.MarshalIndent(out, "", " ")
+		fmt.Println(string(b))
 		return
 	}
 	if *tier == "" {
